@@ -606,7 +606,7 @@ impl<TStdlib: Stdlib, TStdIn: Input, TStdOut: Printer, TLpt1: Printer>
             },
             Instruction::Resume => {
                 let last_error_address = self.take_last_error_address().with_err_at(&pos)?;
-                self.pop_nesting_base(NestingKind::Handler);
+                self.leave_error_handler();
                 ctx.opt_next_index = Some(
                     ctx.nearest_statement_finder
                         .find_current(last_error_address),
@@ -615,7 +615,7 @@ impl<TStdlib: Stdlib, TStdIn: Input, TStdOut: Printer, TLpt1: Printer>
             }
             Instruction::ResumeNext => {
                 let last_error_address = self.take_last_error_address().with_err_at(&pos)?;
-                self.pop_nesting_base(NestingKind::Handler);
+                self.leave_error_handler();
                 ctx.opt_next_index =
                     Some(ctx.nearest_statement_finder.find_next(last_error_address));
                 self.context.pop();
@@ -623,7 +623,7 @@ impl<TStdlib: Stdlib, TStdIn: Input, TStdOut: Printer, TLpt1: Printer>
             Instruction::ResumeLabel(resume_label) => {
                 // not using the last error address but need to clear it which also clears the err code
                 self.take_last_error_address().with_err_at(&pos)?;
-                self.pop_nesting_base(NestingKind::Handler);
+                self.leave_error_handler();
                 ctx.opt_next_index = Some(resume_label.address());
                 self.context.pop();
                 // the label is in the main module: the subprogram calls that were
@@ -788,6 +788,15 @@ impl<TStdlib: Stdlib, TStdIn: Input, TStdOut: Printer, TLpt1: Printer>
     /// Pops the innermost nesting base of the given kind, together with the
     /// bases on top of it. A GOSUB or handler base is not looked for beyond the
     /// current subprogram call. The base of the main module is never popped.
+    /// The handler is left by RESUME: drops what a RESUME out of a FOR or
+    /// SELECT CASE of the handler itself leaves behind.
+    fn leave_error_handler(&mut self) {
+        if let Some(base) = self.pop_nesting_base(NestingKind::Handler) {
+            self.register_stack.truncate(base.registers);
+            self.value_stack.truncate(base.values);
+        }
+    }
+
     fn pop_nesting_base(&mut self, kind: NestingKind) -> Option<NestingBase> {
         let mut index = self.nesting_bases.len();
         while index > 1 {
